@@ -225,6 +225,12 @@ def _max_flat(flat):
         pos = bool(RF(base) > 0)
         pick = max(range(len(flat)), key=lambda i: coefs[i]) if pos else min(range(len(flat)), key=lambda i: coefs[i])
         return flat[pick]
+    if not S.PATH.exploring:
+        # outside path exploration no branch may be taken: the maximum stays an opaque, permutation-invariant function of
+        # the candidates
+        from . import helpers
+        col = sorted(flat, key=S.rf_key)
+        return helpers.fun_vec(helpers.NPMAX, [_np.array(col, dtype=object)])
     fkey = tuple(S.rf_key(v) for v in flat)
     for i in range(len(flat) - 1):
         if S.PATH.decide(('argmax', i, fkey), ('argmax', i, _np.array(flat, dtype=object))):
@@ -449,6 +455,29 @@ def count_nonzero(x, *a, **k):
     return _np.count_nonzero(x, *a, **k)
 
 
+def array_equal(a, b, *args, **kw):
+    """one decision for the whole comparison (elementwise truth tests would split into one path per element)"""
+    if not (_isobj(a) or _isobj(b)):
+        return _np.array_equal(a, b, *args, **kw)
+    a = _np.asarray(a, dtype=object)
+    b = _np.asarray(b, dtype=object)
+    if a.shape != b.shape:
+        return False
+    diffs = []
+    for x, y in zip(a.reshape(-1), b.reshape(-1)):
+        d = S.lift(x) - S.lift(y)
+        if d.is_const():
+            if d.cval() != 0:
+                return False
+            continue
+        # a == b and b == a are one decision
+        kd, kn = S.rf_key(d), S.rf_key(-d)
+        diffs.append((kd, d) if kd <= kn else (kn, -d))
+    if not diffs:
+        return True
+    return S.PATH.decide(('alleq', tuple(k for k, d in diffs)), ('alleq', [d for k, d in diffs]))
+
+
 class _Shim(types.ModuleType):
     def __getattr__(self, n):
         return getattr(_np, n)
@@ -459,7 +488,7 @@ _OVERRIDES = dict(sin=sin, cos=cos, tan=tan, sqrt=sqrt, exp=exp, log=log, log10=
                   abs=abs_, absolute=abs_, power=power, real=real, imag=imag, iscomplexobj=iscomplexobj,
                   zeros=zeros, ones=ones, empty=empty, full=full, zeros_like=zeros_like, ones_like=ones_like, eye=eye,
                   identity=identity, array=array, asarray=asarray, trapz=trapz, linspace=linspace, isnan=isnan,
-                  count_nonzero=count_nonzero)
+                  count_nonzero=count_nonzero, array_equal=array_equal)
 
 
 def make(symbolic_pi=True):
